@@ -17,6 +17,15 @@ func signatureOf(rep *RunReport, prop string) string {
 	return ""
 }
 
+func hasSignature(rep *RunReport, sig string) bool {
+	for _, v := range rep.Viol {
+		if v.Signature() == sig {
+			return true
+		}
+	}
+	return false
+}
+
 func nonZero(tr []int) int {
 	n := 0
 	for _, v := range tr {
@@ -34,7 +43,7 @@ func Minimise(t *testing.T, cfg RunConfig, trace []int, sig string, budgetMs flo
 	try := func(tr []int) *RunReport {
 		attempts++
 		rep := RunOne(t, cfg, tr, false)
-		if rep.Fatal == "" && signatureOf(rep, cfg.Property) == sig {
+		if rep.Fatal == "" && hasSignature(rep, sig) {
 			return rep
 		}
 		return nil
@@ -131,7 +140,7 @@ func runMinimise(t *testing.T, emit func(interface{})) {
 	cfg := rf.Cfg
 	orig := RunOne(t, cfg, rf.Trace, false)
 	sig := rf.Signature
-	if signatureOf(orig, cfg.Property) != sig {
+	if !hasSignature(orig, sig) {
 		emit(map[string]interface{}{"error": "original trace does not reproduce", "got": signatureOf(orig, cfg.Property), "want": sig})
 		return
 	}
